@@ -31,7 +31,7 @@ def plan_config(rng, nmax=30000, klass=None):
     Jdes>=1, Kdes>=1.  `klass` selects a boundary-seeking class (None = random mix)."""
     classes = ["random", "random", "random", "tiny-N", "dense-overlap", "Lmin-eq-N",
                "bmin-large", "Jdes-1", "Kdes-1", "short-segments", "Lmin-large",
-               "kaiser-default-olap", "many-segments"]
+               "kaiser-default-olap", "many-segments", "navg-tie", "round-olap"]
     if klass is None:
         klass = classes[int(rng.integers(len(classes)))]
     if klass == "tiny-N":
@@ -77,6 +77,21 @@ def plan_config(rng, nmax=30000, klass=None):
         Jdes = int(rng.choice([2, 5, 10]))
         Kdes = int(rng.choice([10, 100]))
         bmin = 1.0
+    elif klass in ("navg-tie", "round-olap"):
+        # overlaps that are short decimals / simple fractions; for "navg-tie" the record length is
+        # chosen so that a bin at L = Lmin has (N-L)/((1-olap)L) exactly half-integer: the nominal
+        # segment count sits on a rounding tie
+        olap = float(rng.choice([0.1, 0.2, 0.25, 0.3, 1 / 3, 0.4, 0.45, 0.6, 2 / 3, 0.7, 0.8, 0.85, 0.9]))
+        if klass == "navg-tie":
+            for _ in range(200):
+                L0 = int(rng.integers(8, 401))
+                k = int(rng.integers(0, 7))
+                v = (k + 0.5) * (1 - olap) * L0
+                if abs(v - round(v)) < 1e-9 and L0 + round(v) >= 8:
+                    N = int(L0 + round(v))
+                    Lmin = L0
+                    bmin = 1.0
+                    break
     elif klass == "kaiser-default-olap":
         from .refmodel import kaiser_alpha, kaiser_rov
         olap = float(kaiser_rov(kaiser_alpha(float(rng.choice([40, 60, 100, 150, 200])))))
